@@ -62,9 +62,9 @@ Print Assumptions C02_property_key.
    For every environment of derived definitions inside the decidable fragment de_envb (Proofs/De_proofs.v: structs and enums
    of every shape — named, tuple, newtype, unit — generic or not, rename / rename_all / rename_all_fields / skip,
    struct-level tag, all four enum representations incl. newtype variants of an internally tagged enum around a struct,
-   recursion, `inline` fields, `optional` / `optional = nullable` on Option
-   fields and `optional_fields` on the container, `flatten` of a struct with named fields (no tag, no flattened field of its own) into a
-   definition without type parameters; no type / as overrides, no flatten of enums or maps; arrays of at most ARRAY_TUPLE_LIMIT
+   recursion, `inline` fields of closed type (in generic definitions too), `optional` / `optional = nullable` on Option
+   fields and `optional_fields` on the container, `flatten` of a struct with named fields (no tag, no flattened field of its own) into any
+   definition (the flattened type closed); no type / as overrides, no flatten of enums or maps; arrays of at most ARRAY_TUPLE_LIMIT
    elements, so that the binding is the tuple of exactly that length; a tag key is no field key; the variants of a tagged
    enum have distinct names on the wire; every definition has a declaration and declaration names are distinct), for
    EVERY closed type expression over it, EVERY JSON value whose objects have distinct keys, and every evaluation depth f:
